@@ -673,7 +673,7 @@ func (r *c06Runner) runCase(p *c06Prog, args *[3]Args, verbose bool) bool {
 	}
 	res.Outcome(class)
 	var oracle, desc string
-	var real c06Obs
+	real := c06Obs{resp: -1}
 	if berr != nil {
 		oracle, desc = "build", "the loader rejected a valid program: "+berr.Error()
 	} else {
@@ -709,7 +709,15 @@ func (r *c06Runner) runCase(p *c06Prog, args *[3]Args, verbose bool) bool {
 	text := c06ProgText(p)
 	d := fmt.Sprintf("%s\nprogram (entry s2):\n%sreal trace:      %q\nreference trace: %q\nreal: response=%s err=%v\nreference: response=%s err=%v (terminates by %s)",
 		desc, text, real.trace, ref.obs.trace, c06RespStr(real.resp), real.err, c06RespStr(ref.obs.resp), ref.obs.err, ref.end)
-	res.ViolateInput(r.space+"/"+oracle+"/"+ref.end, d, c06Input{Space: r.space, Prog: *p, Text: text})
+	before := len(res.Violations)
+	icls := "no-wrapper" // input class: did a wrapping plugin run a continuation?
+	if ref.conts > 0 {
+		icls = "continuation"
+	}
+	res.ViolateInput(r.space+"/"+oracle+"/"+icls, d, c06Input{Space: r.space, Prog: *p, Text: text})
+	if len(res.Violations) > before { // the merge keeps the cheapest (= shortest) program per signature
+		res.Violations[before].Cost = len(p.Seqs[0]) + len(p.Seqs[1]) + len(p.Seqs[2])
+	}
 	return false
 }
 
